@@ -150,6 +150,13 @@ def fresh(name, shape, dtype, lo=None, hi=None):
     """array of fresh symbolic scalars (optionally range constrained)"""
     dt = numpy.dtype(dtype)
     e = cur()
+    if getattr(e, "concrete", False):
+        # concrete replay of a counter-model: an ordinary numpy array of the declared dtype
+        real = numpy.empty(shape, dtype=dt)
+        for idx in numpy.ndindex(*shape):
+            nm = "%s_%s" % (name, "_".join(str(i) for i in idx))
+            real[idx] = e.value(e.fresh_name(nm), "i" if dt.kind in "iu" else "b" if dt.kind == "b" else "f", lo, hi)
+        return real
     out = numpy.empty(shape, dtype=object)
     for idx in numpy.ndindex(*shape):
         nm = "%s_%s" % (name, "_".join(str(i) for i in idx))
